@@ -235,10 +235,10 @@ class Lexer:
             except IndexError:
                 raise NonTerminatedString("", self._position + 1, self._source)
 
-            self._position += 1
-
             if char not in HEX_DIGITS:
                 break
+
+            self._position += 1
 
         escape = self._source[start : self._position]
 
